@@ -104,10 +104,6 @@ func (rb *RowBlock) Populate(ctx context.Context, eds eds.Accessor) error {
 
 func (rb *RowBlock) UnmarshalFn(root *share.AxisRoots) UnmarshalFn {
 	return func(cntrData, idData []byte) error {
-		if !rb.Container.IsEmpty() {
-			return nil
-		}
-
 		rid, err := shwap.RowIDFromBinary(idData)
 		if err != nil {
 			return fmt.Errorf("unmarhaling RowID: %w", err)
